@@ -7,6 +7,7 @@ from genf import translate  # noqa: E402,F401  (regenerates lean/PyribsGen/Formu
 PROOF_MODULES = ["PyribsProofs.C02", "PyribsGen.Formulas", "PyribsProofs.GenF"]
 THEOREMS = [
     "Pyribs.GenFProofs.value_matches",
+    "Pyribs.GenFProofs.batch_value_matches",
     "Pyribs.C02.judge_spec",
     "Pyribs.C02.judge_spec_single",
     "Pyribs.C02.status_empty",
